@@ -84,7 +84,7 @@ pub async fn on_did_save_text_document(
         duration = 1000;
     }
     let workspace = context.workspace_manager().read().await;
-    workspace.reindex_workspace(Duration::from_millis(duration));
+    workspace.reindex_workspace_with_context(context.clone(), Duration::from_millis(duration));
     Some(())
 }
 
